@@ -1118,12 +1118,22 @@ def check(name, clause, detail=None):
         r.checks.append(dict(name=name, status='proved' if c.concrete else 'failed', detail=detail))
         return bool(c.concrete)
     t0 = time.time()
-    r.solver.set('timeout', r.vc_timeout_ms)
+    # staged portfolio, sized so that a verdict does not flip when the machine is loaded: z3 with a short budget (most obligations are linear and take
+    # milliseconds), then cvc5 (decides the nonlinear ones z3's nlsat is unstable on), then z3 again with the full budget
+    quick_ms = min(r.vc_timeout_ms, 5000)
+    r.solver.set('timeout', quick_ms)
     neg = _simp(z3.Not(c.exact))
     res = z3.unsat if z3.is_false(neg) else r.solver.check(neg)
     r.n_queries += 1
     backend = 'z3'
     status, model = None, None
+    if res == z3.unknown:
+        o = _cvc5_check(r.solver, neg, timeout_s=max(60, int(r.vc_timeout_ms * 3 / 1000)))
+        if o == 'unsat':
+            res, backend = z3.unsat, 'cvc5'
+        elif r.vc_timeout_ms > quick_ms:
+            r.solver.set('timeout', r.vc_timeout_ms)
+            res = r.solver.check(neg)
     if res == z3.unsat:
         status = 'proved'
     elif res == z3.sat:
@@ -1138,12 +1148,7 @@ def check(name, clause, detail=None):
         except z3.Z3Exception:
             pass
     else:
-        backend = 'cvc5'
-        o = _cvc5_check(r.solver, neg)
-        if o == 'unsat':
-            status = 'proved'
-        else:
-            status = 'unknown'     # a cvc5 'sat' without model extraction stays undecided
+        status = 'unknown'     # undecided by z3 (twice) and cvc5; a cvc5 'sat' without model extraction stays undecided
     r.solver.set('timeout', r.fork_timeout_ms)
     r.solver_s += time.time() - t0
     rec = dict(name=name, status=status, backend=backend, detail=detail, t=round(time.time() - t0, 3))
